@@ -315,7 +315,12 @@ func TestC14(t *testing.T) {
 				cur := svcb
 				for i := 0; i < n; i++ {
 					next := fmt.Sprintf("alias%d.example", i)
-					if i == n-1 {
+					if i == n-1 && end >= 2 && end <= 3 && svcb != host && rapid.IntRange(0, 2).Draw(t, "alias_to_bare_host") == 0 {
+						// _port._scheme.host aliased to the bare host, which publishes the service
+						// records: not a loop (the bare host's HTTPS name was not queried before)
+						next = host
+						cl = append(cl, "alias_to_bare_host")
+					} else if i == n-1 {
 						switch end {
 						case 0: // loop back
 							next = []string{svcb, "alias0.example", cur}[rapid.IntRange(0, 2).Draw(t, "loop_to")]
